@@ -7,6 +7,7 @@ C02 — streaming round trip under any call history and buffer segmentation.
 import ZstdVerif.Lemmas.StreamSpec
 import ZstdVerif.Lemmas.DStreamRT
 import ZstdVerif.Lemmas.CStreamRT
+import ZstdVerif.Model.MTBack
 namespace ZstdVerif.Props.C02
 open ZstdVerif.Stream
 
@@ -90,5 +91,31 @@ theorem cstream_inv (co : Nat → Nat) (w m : Nat) (p : Option Nat) (s : State) 
 
 example : DLegalRun ⟨[1, 2, 3], [(9, 3)]⟩ {} [⟨4, 2, 4, [1, 2], false⟩, ⟨5, 8, 5, [3], true⟩] := by
   simp [DLegalRun, DLegal, DState.step]
+
+/-! ### multithreaded compression under back-pressure (Model/MTBack.lean; tied to the real code by the withheld-output histories of tools/props/c02.py:
+bytes accepted while nothing was emitted = `Back.offer`, and the emitted stream round-trips) -/
+
+open MT in
+/-- **mt_job_slot_never_in_use**: whenever ZSTDMT_createCompressionJob is allowed to prepare a job (`canCreate`), the descriptor it writes
+(`nextJobID & jobIDMask`) is not the descriptor of any job created and not yet entirely flushed (`doneJobID ≤ j < nextJobID`): a producer
+running ahead of a slow consumer can never overwrite output that is still to be handed to the caller -/
+theorem mt_job_slot_never_in_use (r : Ring) (hc : canCreate r = true) (j : Nat) (hj : r.done ≤ j ∧ j < r.next) :
+    j % (r.mask + 1) ≠ r.next % (r.mask + 1) :=
+  MT.create_slot_free r hc j hj
+
+open MT in
+/-- **mt_withheld_input_bounded**: however the caller slices its input (`n` bytes offered `fuel` times), as long as no job has been retired
+the bytes accepted are at most (descriptors + 1) sections: the ring invariant holds along the whole history and a full ring refuses the job -/
+theorem mt_withheld_input_bounded (T mask n fuel : Nat) :
+    (Back.offer T (Back.start mask) n fuel).accepted ≤ (mask + 2) * T ∧ BackInv T (Back.offer T (Back.start mask) n fuel) := by
+  have hi := MT.offer_inv T n fuel (Back.start mask) (MT.backInv_start T mask)
+  have hb := MT.withheld_bounded T _ hi
+  rw [MT.offer_mask] at hb
+  exact ⟨hb, hi⟩
+
+open MT in
+theorem mt_full_ring_refuses (r : Ring) (h : r.next = r.done + r.mask + 1) : create r = r := MT.full_ring_refuses r h
+
+example : MT.ringSlots 1 = 4 ∧ MT.ringSlots 2 = 8 ∧ MT.ringSlots 5 = 8 ∧ MT.ringSlots 6 = 16 := by decide
 
 end ZstdVerif.Props.C02
